@@ -7,7 +7,10 @@ From stdpp Require Import gmap sets list.
 From Coq Require Import NArith.
 From SV Require Import SM.IndexModel SM.IndexProofs SM.IndexSearchProofs SM.IndexShapes SM.IndexShapeProofs
   SM.IndexUniqueProofs SM.IndexCopySetProofs SM.IndexMaint SM.IndexMaintProofs SM.IndexEquivProofs
-  SM.IndexRemove SM.IndexRemoveProofs SM.IndexDel SM.IndexDelProofs SM.IndexListOps SM.IndexListOpsProofs SM.IndexClear SM.IndexClearProofs.
+  SM.IndexRemove SM.IndexRemoveProofs SM.IndexDel SM.IndexDelProofs SM.IndexListOps SM.IndexListOpsProofs SM.IndexClear SM.IndexClearProofs
+  SM.IndexGlue SM.IndexGlueProofs SM.IndexProperty SM.IndexFold SM.IndexSearchCount.
+From Coq Require Strings.String.
+Notation string := String.string (only parsing).
 
 Section C07.
   Variable fold : str → str.
@@ -191,6 +194,75 @@ Section C07.
     let out := irun get (λ x w, wrun fold (f x) w) order p ∅ [] w in
     io_raised out = false ∧ Forall (Inv fold) (io_state out).
   Proof. apply copyset_iteration_keeps_inv; assumption. Qed.
+  (** *** Round 4: the glue around those functions, as written (statement lists / shapes read off vmf.py by
+      translate/c07_index_glue.py on every run).
+      VMF.__init__: when the two indexes and the entity list are created before the worldspawn, and the worldspawn is a
+      new entity without keys that becomes [spawn], is classed 'worldspawn' through __setitem__ and filed under no
+      name, the constructor yields exactly the model's [init]. *)
+  Theorem c07_vmf_init_as_written : ∀ l env, vmf_init_ok l = true →
+    g_run fold l env blank = init ∧ Inv fold (g_run fold l env blank).
+  Proof. intros l env H. rewrite (vmf_init_pg_ok fold fold_nil fold_cn fold_ws l env H). split; [done|]. by apply init_inv. Qed.
+
+  (** VMF.parse: constructor, worldspawn replacement (the parsed world block becomes an entity; the placeholder leaves
+      both indexes before [spawn] is re-assigned; the new spawn is classed through __setitem__ and filed under its
+      current name) and the entity loop (every block is parsed into an entity and added through add_ent) are the
+      model's [parse_init] for every world block and every list of entity blocks. *)
+  Theorem c07_parse_as_written : ∀ pi ps pe sk ek,
+    vmf_init_ok pi = true → parse_spawn_ok ps = true → parse_ent_ok pe = true →
+    parse_pg fold pi ps pe sk ek = parse_init fold sk ek ∧ Inv fold (parse_pg fold pi ps pe sk ek).
+  Proof.
+    intros pi ps pe sk ek H1 H2 H3. rewrite (parse_pg_ok fold fold_nil fold_cn fold_ws pi ps pe sk ek H1 H2 H3).
+    split; [done|]. by apply parse_init_inv.
+  Qed.
+
+  (** VMF.create_ent (the keyword arguments cannot contain 'classname' itself: Python rejects such a call),
+      Entity.__init__ (a new empty key dict, self.map assigned first, the keys stored one by one through
+      __setitem__), Entity.pop (case-insensitive lookup loop, the deletion goes through __delitem__; needs folding
+      to be idempotent when the folded key is deleted instead of the stored one). *)
+  Theorem c07_create_ent_as_written : ∀ l keys c st, create_ent_ok l = true → dget cn keys = None →
+    g_run fold l (GE keys c) st = create_ent fold c keys st ∧ (Inv fold st → Inv fold (g_run fold l (GE keys c) st)).
+  Proof. intros l keys c st H Hk. rewrite (create_ent_pg_ok fold l keys c st H Hk). split; [done|]. by apply create_ent_inv. Qed.
+  Theorem c07_entity_init_as_written : ∀ sh l st, einit_ok sh = true →
+    new_ent_sh fold sh l st = new_ent fold l st ∧ (Inv fold st → Inv fold (new_ent_sh fold sh l st)).
+  Proof. intros sh l st H. rewrite (new_ent_sh_ok fold sh l st H). split; [done|]. by apply new_ent_inv. Qed.
+  Theorem c07_pop_as_written : (∀ s, fold (fold s) = fold s) → ∀ sh e key st, pop_ok sh = true →
+    pop_item_sh fold sh e key st = pop_item fold e key st ∧ (Inv fold st → Inv fold (pop_item_sh fold sh e key st).1).
+  Proof. intros Hi sh e key st H. rewrite (pop_item_sh_ok fold sh e key st Hi H). split; [done|]. by apply pop_item_inv. Qed.
+
+  (** Entity.make_unique as written: the uniqueness test, the clearing of the own name, the base name and the
+      candidate loop look names up folded, count from 1 in steps of 1, and store through __setitem__: then the function
+      is the model's [make_unique] (whose loop is shown to terminate above). *)
+  Theorem c07_make_unique_as_written : ∀ sh e p st, mu_ok sh = true →
+    make_unique_sh fold sh e p st = make_unique fold e p st ∧ (Inv fold st → Inv fold (make_unique_sh fold sh e p st).1).
+  Proof. intros sh e p st H. rewrite (make_unique_sh_ok fold sh e p st H). split; [done|]. by apply make_unique_inv. Qed.
+
+  (** *** THE PROPERTY over the code as written (round 4).  [P] collects every object the translators read off vmf.py
+      and [programs_ok P] all their named obligations; [census] is the list of all functions of the package that write
+      by_class / by_target, a VMF.entities list, VMF.spawn or an Entity._keys dict (translate/c07_index_sites.py), and
+      [census_covered] says each of them is one of the functions below.  Then
+      (a) every function of the census, as written, is the corresponding operation of the model on its whole modelled
+          domain and preserves the invariant;
+      (b) after every history of public operations as written ([step_w]: create/add/remove, []=, del, pop, popitem,
+          setdefault, update, clear, make_unique, export, defaultdict reads) on a map constructed as written, the
+          invariant holds, looking an entity up by class or by name returns exactly the scan of the entities in the
+          map, search() as written returns exactly [search_spec], and the worldspawn is listed under 'worldspawn'. *)
+  Theorem c07_property :
+    (∀ s, fold (fold s) = fold s) → (∀ b i, fold (b ++ dec i) = fold b ++ dec i) → fold nodeid ≠ cn ∧ fold nodeid ≠ tn →
+    ∀ (census : list string) (P : programs), census_covered census = true → programs_ok P = true →
+    (∀ s, s ∈ census → ∃ f, fname_of s = Some f ∧
+       ∀ a st, fn_dom f a st → fn_w fold P f a st = fn_model fold f a st ∧ (Inv fold st → Inv fold (fn_w fold P f a st).1)) ∧
+    (∀ ops, ops_dom fold ops (init_w fold P) →
+       let st := run_w fold P ops (init_w fold P) in
+       Inv fold st ∧
+       (∀ k e, e ∈ ix_get (by_class st) k ↔ present st e ∧ cls_of fold st e = k) ∧
+       (∀ k e, e ∈ ix_get (by_target st) k ↔ present st e ∧ tgt_of fold st e = k) ∧
+       (∀ name e, e ∈ (search_sh fold (pg_search P) name st).1 ↔ search_spec fold name st e) ∧
+       cls_of fold st (spawn st) = ws ∧ spawn st ∈ ix_get (by_class st) ws).
+  Proof.
+    intros Hidem Hdec Hnode census P Hc HP. split.
+    - eapply property_functions; eassumption.
+    - intros ops Hd. eapply property_histories; eassumption.
+  Qed.
 End C07.
 
 (** CopySet iteration in general (any state type, any loop body, any iteration order of a frozen set): no
@@ -346,3 +418,92 @@ Example c07_history_example :
   let st := run ascii_fold [CreateEnt [70;117]%N [(tn, [65;98]%N)]; SetItem 1 cn [97]%N; Pop 1 tn; RemoveEnt 1] init in
   ents st = [] ∧ elements (ix_get (by_class st) ws) = [0] ∧ elements (ix_get (by_target st) None) = [0].
 Proof. vm_compute. done. Qed.
+
+(** Round 4: the hypotheses of [c07_property] are satisfiable — today's programs pass every obligation and today's census
+    is covered; a non-trivial history as written ends in the state of the model. *)
+Example c07_property_today_ok :
+  programs_ok programs_today = true ∧
+  census_covered census_today = true ∧ census_covered census_with_an_unmodelled_writer = false ∧
+  let ops := [CreateEnt [70;117]%N [(tn, [65;98]%N)]; SetItem 1 cn [97]%N; Pop 1 tn; MakeUnique 1 [120]%N] in
+  let st := run_w ascii_fold programs_today ops (init_w ascii_fold programs_today) in
+  ops_dom ascii_fold ops (init_w ascii_fold programs_today) ∧
+  ents st = [1] ∧ keys_of st 1 = [(cn, [97]%N); (tn, [120]%N)] ∧
+  elements (ix_get (by_target st) (Some [120]%N)) = [1] ∧ elements (ix_get (by_class st) [97]%N) = [1] ∧
+  elements (ix_get (by_class st) [102;117]%N) = [].
+Proof. split; [reflexivity|]. split; [reflexivity|]. split; [reflexivity|]. split; [vm_compute; tauto|]. vm_compute. done. Qed.
+Example c07_glue_today_ok :
+  vmf_init_ok vmf_init_today = true ∧ parse_spawn_ok parse_spawn_today = true ∧ parse_ent_ok glue_ent_today = true ∧
+  create_ent_ok create_ent_today = true ∧ einit_ok einit_today = true ∧ copy_ok copy_today = true ∧
+  pop_ok pop_today = true ∧ mu_ok mu_today = true.
+Proof. exact glue_today_ok. Qed.
+(** Faulty glue, refuted by computed witnesses: a constructor that does not file the worldspawn under no name; parse
+    re-assigning the spawn before the placeholder is taken out of the indexes (the placeholder stays listed under
+    'worldspawn'); pop through `self._keys.pop(k)` (the entity keeps its old name in by_target); a constructor that
+    fills the key dict directly (two spellings of one key survive); make_unique looking a candidate up un-folded (a
+    name taken in another letter case is handed out again - not a C07 violation, the indexes stay consistent). *)
+Theorem c07_vmf_init_forgets_target_refuted :
+  vmf_init_containers_first vmf_init_forgets_target = true ∧ vmf_init_spawn_ok vmf_init_forgets_target = false ∧
+  ¬ Inv ascii_fold (g_run ascii_fold vmf_init_forgets_target env0 blank).
+Proof. exact vmf_init_forgets_target_refuted. Qed.
+Theorem c07_parse_spawn_assign_first_refuted :
+  parse_drops_the_placeholder parse_spawn_assign_first = false ∧ Inv ascii_fold init ∧
+  ¬ Inv ascii_fold (g_run ascii_fold parse_spawn_assign_first (GE [] []) init).
+Proof. exact parse_spawn_assign_first_refuted. Qed.
+Theorem c07_pop_direct_refuted :
+  pop_deletes_through_delitem pop_direct = false ∧
+  let st0 := run ascii_fold [CreateEnt [97]%N [(tn, [120]%N)]] init in
+  let r := pop_item_sh ascii_fold pop_direct 1 tn st0 in
+  Inv ascii_fold st0 ∧ r.2 = 0 ∧ keys_of r.1 1 = [(cn, [97]%N)] ∧ ¬ Inv ascii_fold r.1.
+Proof. exact pop_direct_refuted. Qed.
+Theorem c07_entity_init_direct_refuted :
+  einit_ok einit_direct = false ∧
+  ¬ Inv ascii_fold (new_ent_sh ascii_fold einit_direct [([65]%N, [120]%N); ([97]%N, [121]%N)] init).
+Proof. exact einit_direct_refuted. Qed.
+Theorem c07_make_unique_unfolded_candidate_differs :
+  mu_loop_ok mu_unfolded_cand = false ∧
+  let st0 := run ascii_fold [CreateEnt [97]%N [(tn, [88]%N)]; CreateEnt [97]%N [(tn, [88;49]%N)]; CreateEnt [97]%N [(tn, [88]%N)]] init in
+  kv_find ascii_fold tn (keys_of (make_unique_sh ascii_fold mu_unfolded_cand 3 [] st0).1 3) = Some [88;49]%N ∧
+  kv_find ascii_fold tn (keys_of (make_unique ascii_fold 3 [] st0).1 3) = Some [88;50]%N.
+Proof. exact mu_unfolded_cand_differs. Qed.
+
+(** Round 4: case folding by table.  [str.casefold] works code point by code point; the correspondence instantiates the
+    model with [table_fold tab], ASCII lower-casing extended by the table [code point ↦ chr(c).casefold()] that CPython
+    gives for the non-ASCII code points of the batch.  For every such table the folding satisfies the hypotheses of all
+    the theorems above; idempotence holds when the images are their own folding (a boolean the check evaluates). *)
+Theorem c07_table_fold_ok : ∀ tab, tab_non_ascii tab = true →
+  table_fold tab [] = [] ∧ table_fold tab cn = cn ∧ table_fold tab tn = tn ∧ table_fold tab ws = ws ∧
+  (∀ b i, table_fold tab (b ++ dec i) = table_fold tab b ++ dec i) ∧
+  (table_fold tab nodeid ≠ cn ∧ table_fold tab nodeid ≠ tn).
+Proof.
+  intros tab Ht. destruct (table_fold_ok tab Ht) as (H1 & H2 & H3 & H4 & H5). repeat split; try done; by apply table_fold_nodeid.
+Qed.
+Theorem c07_table_fold_idem : ∀ tab, tab_non_ascii tab = true → tab_closed tab = true →
+  ∀ s, table_fold tab (table_fold tab s) = table_fold tab s.
+Proof. exact table_fold_idem. Qed.
+Example c07_table_fold_example : tab_non_ascii tab_example = true ∧ tab_closed tab_example = true ∧
+  tab_closed [(7838, [223]); (223, [115; 115])]%N = false ∧ table_fold tab_example [83; 223; 304]%N = [115; 115; 115; 105; 775]%N.
+Proof. exact tab_example_ok. Qed.
+
+(** Round 4: how often VMF.search yields an entity (multiplicity; the set-level theorems above say *which* entities).
+    [search_count] runs the same generated program as [search_sh] and counts the yields of one entity (a set is
+    iterated once per `yield from`, every member once).  For every program that passes the shape obligations and
+    [search_once_ok] (no part is yielded twice on any path), in every state satisfying the invariant: the empty query
+    yields nothing; a `prefix*` query yields each matching entity exactly once; an exact query yields an entity once
+    if its name matches plus once if its class matches — never more than twice, and twice exactly when both match. *)
+Theorem c07_search_multiplicity : ∀ fold, (∀ s, fold (fold s) = fold s) → ∀ sh name e st,
+  search_shape_ok sh = true → search_once_ok sh = true → Inv fold st →
+  search_count fold sh name e st =
+    (if bool_decide (name = []) then 0
+     else if ends_star (fold name) then b2n (bool_decide (e ∈ named fold (is_prefix (removelast (fold name))) true st))
+     else b2n (bool_decide (e ∈ ix_get (by_target st) (Some (fold name)))) + b2n (bool_decide (e ∈ ix_get (by_class st) (fold name)))) ∧
+  search_count fold sh name e st ≤ 2.
+Proof.
+  intros fold Hi sh name e st H1 H2 HI. split; [exact (search_count_spec fold Hi sh name e st H1 H2 HI)|].
+  exact (search_count_le2 fold Hi sh name e st H1 H2 HI).
+Qed.
+Example c07_search_multiplicity_examples :
+  search_once_ok search_shape_today = true ∧
+  search_shape_ok search_shape_class_twice = true ∧ search_once_ok search_shape_class_twice = false ∧
+  let st := run ascii_fold [CreateEnt [97]%N [(tn, [65]%N)]] init in
+  search_count ascii_fold search_shape_today [97]%N 1 st = 2 ∧ search_count ascii_fold search_shape_class_twice [97]%N 1 st = 3.
+Proof. split; [exact search_today_once|exact search_count_examples]. Qed.
